@@ -17,7 +17,47 @@ import os
 # the model files, which are built (imported), grepped and audited through their users but not counted as obligations
 THEOREMS = ["IstioModel.C04.Theorems", "IstioModel.C04.ProtocolTheorems", "IstioModel.C04.DeltaTraceTheorems",
             "IstioModel.C04.ProcessTheorems", "IstioModel.C04.RecvTheorems", "IstioModel.C04.DeltaProtocolTheorems",
-            "IstioModel.C04.NoLoopTheorems", "IstioModel.C04.DeltaNoLoopTheorems"]
+            "IstioModel.C04.NoLoopTheorems", "IstioModel.C04.DeltaNoLoopTheorems", "IstioModel.C04.GenTie"]
+GENERATED = "IstioModel/Generated/C04Types.lean"
+
+
+def gen_table(ctx):
+    """T-gen: regenerate the table of the real per-type predicates over EVERY type-URL constant of the tree under test
+    (constants found by parsing the sources); GenTie.lean proves the model's predicates equal to it."""
+    import verif as V
+    out = os.path.join(V.LEAN, GENERATED)
+    os.makedirs(os.path.dirname(out), exist_ok=True)
+    tmp = out + ".new"
+    if os.path.exists(tmp):
+        os.remove(tmp)
+    rc, log = ctx.harness("table", "C04Types", tmp)
+    if rc != 0 or not os.path.exists(tmp):
+        if os.path.exists(out):
+            os.remove(out)
+        ctx.tie_broken("table-generation", "harness `table` failed: the type constants could not be enumerated / evaluated\n" + log[-3000:])
+        return False
+    new = open(tmp).read()
+    old = open(out).read() if os.path.exists(out) else None
+    if old != new:
+        with open(out, "w") as f:   # never prove against a stale table; an unchanged one keeps lake's cache valid
+            f.write(new)
+    os.remove(tmp)
+    rows = 0
+    for line in log.split("\n"):
+        if line.startswith("table:"):
+            for kv in line.split()[1:]:
+                k, _, v = kv.partition("=")
+                if v.isdigit():
+                    ctx.counters["table." + k] = int(v)
+            rows = ctx.counters.get("table.rows", 0)
+    ctx.evaluations += rows
+    for i in range(rows):
+        ctx.distinct.add(b"typerow%d" % i)
+    ctx.extra["type_universe_table"] = {"rows": rows, "evaluations_of_real_predicates": ctx.counters.get("table.evaluations", 0),
+                                        "unchanged_since_last_run": old == new,
+                                        "domain": "every constant named *Type in pkg/model/xds.go and pilot/pkg/xds/v3/model.go, every "
+                                                  "TypeDebug* constant of pilot/pkg/xds/statusgen.go, an unknown and the empty type URL"}
+    return True
 
 
 def oracle(ctx, stream, case_lines, rep):
@@ -96,11 +136,15 @@ def run(ctx):
     ctx.trusted.append("pilot/pkg/xds/zz_verif_c04.go (verif-tagged accessors for shouldRespondDelta, sendDelta)")
     ctx.trusted.append("pilot/pkg/xds/zz_verif_c03.go (processRequest, processDeltaRequest, pushConnection, pushConnectionDelta on a bare server), "
                        "pkg/xds/zz_verif_c04b.go + pilot/pkg/xds/zz_verif_c04b.go (Receive / receiveDelta run to completion, recover() around them)")
-    proved = ctx.lean_prove(THEOREMS)
-    if not ctx.build_drv():
-        return
+    # the harness first: the table of the real per-type predicates is an input of the proof (GenTie.lean)
     if not ctx.go_build():
         return
+    have_table = gen_table(ctx)
+    proved = ctx.lean_prove(THEOREMS if have_table else [m for m in THEOREMS if not m.endswith("GenTie")])
+    if not ctx.build_drv():
+        return
+    # every type constant judged against the xDS protocol on the real predicates (oracle only; found input for a table break)
+    ctx.diff_stream("types", 10 ** 9, oracle=oracle)
     n = ctx.n(1500, 40000)
     ctx.diff_stream("sotw", n, oracle=oracle)
     ctx.diff_stream("delta", n, oracle=oracle)
@@ -130,7 +174,7 @@ def run(ctx):
         "cases_this_run": {k: ctx.streams.get(k, {}).get("cases", 0) for k in ("enum", "denum")},
     }
     # the oracle also runs on every generated case (second line, independent of the model)
-    for stream in ("sotw", "delta", "warm", "loop", "proc", "dproc", "recv", "dloop", "enum", "denum"):
+    for stream in ("sotw", "delta", "warm", "loop", "proc", "dproc", "recv", "dloop", "enum", "denum", "types"):
         g = os.path.join(ctx.work, "%s.gen.ops" % stream)
         if os.path.exists(g):
             out = g + ".verdict"
